@@ -114,7 +114,11 @@ def emit_format(f, gen):
     hdr = f.get("header") or ""
     L.append("  header := %s" % lstr(hdr))
     facts = []
-    for k, v in sorted((gen["probe_per_header"].get(hdr) or {}).items()):
+    merged = {}
+    for h in f.get("includes") or [hdr]:
+        for k, v in (gen["probe_per_header"].get(h) or {}).items():
+            merged.setdefault(k, v)
+    for k, v in sorted(merged.items()):
         if k.startswith("enum:") and not (k.startswith("enum:AVTP_ACF_TYPE") or k.startswith("enum:AVTP_SUBTYPE")
                                           or k.startswith("enum:AVTP_CVF_FORMAT")):
             continue
